@@ -190,8 +190,8 @@ PROPS = {
     "C19": P(
         "exploration",
         "Named values exhaustively (7 methods, 27 statuses, 60 content formats, observe actions; all 256 code bytes through both "
-        "getters; all 65536 raw content-format ids; raw Observe values <= 6 bytes); every path string <= 6 (7) over {/ a . é} x 3 "
-        "prior states; every setter/raw-add operation sequence of length <= 3 (4) over 18 operations (histories: set after set, "
+        "getters; all 65536 raw content-format ids; raw Observe values <= 6 bytes); every path string <= 8 (9) over {/ a . é} x 3 "
+        "prior states; every setter/raw-add operation sequence of length <= 5 (6) over 20 operations (histories: set after set, "
         "set after raw add, after clear_all); coap-message 0.2 and 0.3 reader/writer/mutator views over every ordered selection of "
         "<= 4 of 7 options x payload x codes. Every history is executed on a fresh real object and all views are compared with the "
         "value of the last setter of each kind. distinct non-trivial = distinct (kind x shape) buckets.",
@@ -201,7 +201,7 @@ PROPS = {
         "model_checking",
         "Every case is a complete Block2 transfer through the real handler via encoded bytes (requests by the reference encoder, "
         "replies read by the reference parser): budget x body length x client strategy (no preference / early SZX / mid-transfer "
-        "reductions = deviations) x application option set x start state. Family A: budgets overhead+28..+92 x every body length "
+        "reductions = deviations) x application option set x start state (fresh, completed transfer, unfinished transfers on other keys, unfinished transfer on the key abandoned after block 0 or after one/two cached follow-ups). Family A: budgets overhead+28..+92 x every body length "
         "0..=98; family B: budgets +-2 around overhead+12+2^k, 1152, 1280 x boundary lengths x all strategies. Oracle on the "
         "client side: reassembly == body, block sizes/more flags/numbers vs offsets, option echo, application consulted once, "
         "cache released. states = distinct handler snapshots (hook) seen after an exchange, transitions = exchanges, each "
@@ -221,7 +221,7 @@ PROPS = {
         "exploration",
         "Direct measurement: complete downloads and uploads through the real handler for budgets (every value overhead+28..+92, "
         "+-2 around overhead+12+2^k, 1152, 1280) x overhead shapes (token, path, extra options / application options) x client SZX "
-        "(none, 0..7) x bodies relative to the room left; every handler-produced reply is encoded and compared with the budget, "
+        "(none, 0..7) x bodies relative to the room left, plus uploads whose requests change token and Uri-Query from block to block and after an abandoned upload on the key; every handler-produced reply is encoded and compared with the budget, "
         "the chosen SZX with 0..6 / the client's size / the exact-size rule, and the client's next upload block is encoded and "
         "measured. distinct+non-trivial = distinct (outcome x client SZX x body shape x overhead shape x log2(room)) buckets.",
         ["oc"], ["oc", "rel"],
